@@ -297,6 +297,9 @@ private:
             const SpecifierListSyntax* specList,
             DeclaratorSyntax*& decltor,
             ExtKR_ParameterDeclarationListSyntax* paramKRList);
+    void turnTagDeclarationIntoSpecifier(
+            DeclarationSyntax*& decl,
+            SpecifierListSyntax*& specList);
     bool parseDeclarationOrStructDeclaration_AtFollowOfSpecifiers(
             DeclarationSyntax*& decl,
             SpecifierListSyntax*& specList,
